@@ -15,7 +15,7 @@ insert() { python3 - "$file" "$anchor" "$demo" <<'PY'
 import sys
 f,anchor,demo=sys.argv[1:4]
 s=open(f).read(); d=open(demo).read()
-i=s.index(anchor); i=s.rfind('\n',0,i)+1
+i=len(s) if anchor=='APPEND' else s.rfind('\n',0,s.index(anchor))+1
 open(f,'w').write(s[:i]+d+'\n'+s[i:])
 PY
 }
